@@ -54,16 +54,19 @@ structure Plat where
   zoneNp  : Zn → Np                      -- netpoint_
   isZone  : Np → Bool                    -- is_netzone()
   gateway : Zn → Option Np               -- get_gateway(); none = one of its xbt_enforce fails
-  prepend : Zn → Bool                    -- DijkstraZone: get_local_route uses insert_link_latency (front insertion)
+  prepend : Zn → Bool                    -- DijkstraZone: get_local_route uses insert_link_latency (front insertion);
+                                         -- only the pre-fix variant `globalRouteV false` looks at it
   loc     : Zn → Np → Np → Option Route  -- get_local_route on an empty Route; none = exception / assertion
   bypass  : Zn → List ((Np × Np) × Bypass) -- bypass_routes_ (at most one entry per key: xbt_enforce in add_bypass_route)
   lat     : Lk → Int                     -- link latency (in the check: units of 2^-50 s)
   depth   : Nat                          -- bound on the length of a walk to the root (number of zones)
 
-/-- switch for the proposed fix (props/C24/proposed_fix.diff): the same-zone case of
-`get_global_route_with_netzones` appends the local route instead of handing the accumulated list to the zone.
-`false` = the code as it is now. -/
-def fixedSameZoneAppend : Bool := false
+/-- the same-zone case of `get_global_route_with_netzones` computes the local route in a fresh `Route` and appends it
+to the accumulated links (fix `bypass-tail-in-dijkstra-zone`, props/C24/fix_series/01-…).  `true` = the code as it is
+now; before the fix (`false`) the accumulated list was handed to the zone's `get_local_route`, and a Dijkstra zone
+(`prepend`) inserted its links in front of it.  The pre-fix variant is kept as `globalRouteV false` for the
+regression theorems (`Props`: `…_prefix_…`). -/
+def fixedSameZoneAppend : Bool := true
 
 def sumLat (P : Plat) (l : List Lk) : Int := (l.map P.lat).sum
 
@@ -255,8 +258,9 @@ def crossRoute (P : Plat) (src dst : Np) (links : List Lk) (lat : Int) (A : Anc)
       else .ok (l2, t1)
 
 /- ---------------------------------------------------------------- get_global_route_with_netzones
-   (+ the recursive part of get_bypass_route, which calls it back).  `links`/`lat` are the in/out parameters. -/
-def globalRoute (P : Plat) : Nat → Np → Np → List Lk → Int → Except Err (List Lk × Int)
+   (+ the recursive part of get_bypass_route, which calls it back).  `links`/`lat` are the in/out parameters.
+   `fx` = the same-zone case appends a separately computed local route (the code as it is now: `fx = true`). -/
+def globalRouteV (fx : Bool) (P : Plat) : Nat → Np → Np → List Lk → Int → Except Err (List Lk × Int)
   | 0, _, _, _, _ => .error .fuel
   | f+1, src, dst, links, lat =>
     match findCommonAncestors P src dst (allEnglobing P src) (allEnglobing P dst) with
@@ -270,7 +274,7 @@ def globalRoute (P : Plat) : Nat → Np → Np → List Lk → Int → Except Er
           if src ≠ key.1 then
             match b.gwSrc with
             | none => .error .bypassNoGw
-            | some g => globalRoute P f src g links lat
+            | some g => globalRouteV fx P f src g links lat
           else .ok (links, lat)
         match first with
         | .error e => .error e
@@ -281,21 +285,30 @@ def globalRoute (P : Plat) : Nat → Np → Np → List Lk → Int → Except Er
           if dst ≠ key.2 then
             match b.gwDst with
             | none => .error .bypassNoGw
-            | some g => globalRoute P f g dst l2 t2
+            | some g => globalRouteV fx P f g dst l2 t2
           else .ok (l2, t2)
       | .none =>
         if P.zoneOf src = P.zoneOf dst then
-          -- route.link_list_ = std::move(links); zone->get_local_route(src, dst, &route, latency); links = move back
+          -- zone->get_local_route(src, dst, &route, latency) on the fresh `route`;
+          -- if (links.empty()) links = std::move(route.link_list_); else links.insert(links.end(), route.link_list_…)
+          -- (before the fix: route.link_list_ = std::move(links); get_local_route(…, &route, …); links = move back)
           match P.loc (P.zoneOf src) src dst with
           | none => .error .localFailed
           | some r =>
-            if P.prepend (P.zoneOf src) && !fixedSameZoneAppend then .ok (r.links ++ links, lat + routeLat P r)
+            if P.prepend (P.zoneOf src) && !fx then .ok (r.links ++ links, lat + routeLat P r)
             else .ok (links ++ r.links, lat + routeLat P r)
         else
           crossRoute P src dst links lat A
 
+/-- the code as it is now -/
+def globalRoute (P : Plat) : Nat → Np → Np → List Lk → Int → Except Err (List Lk × Int) :=
+  globalRouteV fixedSameZoneAppend P
+
 /-- NetZoneImpl::get_global_route / Host::route_to.  Fuel: each recursive call comes from a bypass route and goes
 strictly deeper in a tree; `depth + 2` levels are enough there. -/
+def routeToV (fx : Bool) (P : Plat) (src dst : Np) : Except Err (List Lk × Int) :=
+  globalRouteV fx P (P.depth + 2) src dst [] 0
+
 def routeTo (P : Plat) (src dst : Np) : Except Err (List Lk × Int) :=
   globalRoute P (P.depth + 2) src dst [] 0
 
